@@ -49,7 +49,7 @@ func genC09(rt *rapid.T) CaseC09 {
 	m := rapid.IntRange(2, 9).Draw(rt, "nacts")
 	for i := 0; i < m; i++ {
 		c.Acts = append(c.Acts, ActC09{
-			Kind: rapid.SampledFrom([]string{"write", "write", "replicate", "replicate", "load", "racewrite", "racewrite"}).Draw(rt, "kind"),
+			Kind: rapid.SampledFrom([]string{"write", "write", "replicate", "replicate", "load", "racewrite", "racewrite", "exchange2", "exchange2"}).Draw(rt, "kind"),
 			DB:   rapid.IntRange(0, n-1).Draw(rt, "db"),
 			N:    rapid.IntRange(1, 4).Draw(rt, "n"),
 		})
@@ -230,6 +230,57 @@ func execC09(c CaseC09) *Outcome {
 			world.WaitFor(func() bool { return w.LogLen() > sent }, 5*time.Second)
 			time.Sleep(500 * time.Microsecond)
 			release()
+		case "exchange2":
+			// a returning peer hands over its heads of two databases back to back (head exchange on the direct
+			// channel), the second message arriving while the first database is still fetching
+			e := (d + 1 + a.N) % n
+			if e == d {
+				e = (d + 1) % n
+			}
+			other = e
+			var wants [2][]string
+			var msgs [2][]byte
+			for k, x := range []int{d, e} {
+				for q := 0; q < 1+a.N; q++ {
+					if _, err := writeAny(ctx, st[2][x], c.DBs[x].Type, 2+q%2, 3, cnt); err != nil {
+						return fail("action %d: author write failed: %v", ai, err)
+					}
+					cnt++
+				}
+				wants[k] = world.HashSet(st[2][x])
+				m, err := headsMessage(addrs[x], world.Heads(st[2][x]))
+				if err != nil {
+					return fail("harness: %v", err)
+				}
+				msgs[k] = m
+			}
+			p0 := w.Peers[0]
+			p0.SetGate(true)
+			if !w.InjectDirect(2, 0, msgs[0]) || !w.InjectDirect(2, 0, msgs[1]) {
+				p0.SetGate(false)
+				return fail("harness: the instance has no direct channel")
+			}
+			world.WaitFor(func() bool { return len(p0.Parked()) > 0 }, 2*time.Second)
+			time.Sleep(500 * time.Microsecond)
+			p0.SetGate(false)
+			err := w.WaitClaim("the entries handed over for both databases become visible", func() bool {
+				for k, x := range []int{d, e} {
+					have := hashSetOf(st[0][x])
+					for _, h := range wants[k] {
+						if !have[h] {
+							return false
+						}
+					}
+				}
+				return true
+			}, live, nil, claimTimeout)
+			if err != nil {
+				if err == world.ErrInconclusive {
+					o.Inconclusive = true
+					return o
+				}
+				return fail("action %d: head exchanges for databases %d and %d delivered back to back: %v", ai, d, e, err)
+			}
 		case "load":
 			if err := st[0][d].Load(ctx, -1); err != nil {
 				return fail("action %d: Load failed: %v", ai, err)
